@@ -8,7 +8,7 @@ Import ListNotations.
 Require Import TV.Base.EP TV.Base.EPSound TV.Base.Amp TV.Model.Lane TV.Spec.Born TV.gen.Gen_instructions TV.gen.Gen_stim_gates
   TV.Model.GateCheck TV.Model.InstrCheck TV.Model.KrausCheck TV.Proofs.GateProofs TV.Proofs.InstrProofs
   TV.Proofs.BitIdx TV.Proofs.CircuitProofs TV.Proofs.CircuitTheorem TV.Proofs.DenseBridge TV.Proofs.KrausSem TV.Proofs.KrausLocal
-  TV.Proofs.KrausTheorem TV.Proofs.KrausGates.
+  TV.Proofs.KrausTheorem TV.Proofs.KrausGates TV.Proofs.KrausFeedback.
 Set Default Timeout 200.
 
 (* ---- finite facts about the regenerated collapse fragments ---- *)
@@ -106,7 +106,8 @@ Section KCirc.
   | CM (name : string) (inv : bool) (q : nat)   (* m mx my mr mrx mry, noiseless, optionally inverted *)
   | CR (name : string) (q : nat)                (* r rx ry *)
   | CMp (name : string) (p : Q) (inv : bool) (q : nat)   (* the same measurements with flip probability p > 0 *)
-  | CN (name : string) (args : list Q) (q : nat).        (* x_error y_error z_error depolarize1 (one argument), pauli_channel_1 (three) *)
+  | CN (name : string) (args : list Q) (q : nat)         (* x_error y_error z_error depolarize1 (one argument), pauli_channel_1 (three) *)
+  | CF (name : string) (r q : nat).                      (* a Pauli on lane q controlled by record bit r: "CX rec q" ... "YCZ q rec" *)
   Definition cinstr_ops (i : cinstr) : option (list (op nat)) :=
     match i with
     | CG x => gapp_ops x
@@ -114,7 +115,10 @@ Section KCirc.
     | CR name q => match assoc name reset_fns with Some (_, g) => Some (g q) | None => None end
     | CMp name p inv q => if noisy_p p then match assoc name meas_fns with Some (_, _, g) => Some (g q p inv) | None => None end else None
     | CN name args q => cn_ops name args q
+    | CF name r q => match assoc name fb_fns with Some (_, g) => Some (g r q) | None => None end
     end.
+  (* a feedback instruction may only refer to a record bit that exists at that point *)
+  Definition cinstr_ok (sk : kst) (i : cinstr) : bool := match i with CF _ r _ => Nat.ltb r (knrec R sk) | _ => true end.
   Fixpoint ccircuit_ops (c : list cinstr) : option (list (op nat)) :=
     match c with
     | [] => Some []
@@ -139,6 +143,10 @@ Section KCirc.
         | Some (basis, is_reset, _) => aapp1 (m2f_of (spec_meas_noisy_m basis is_reset inv (window b (knrec R sk) (knsil R sk) (knerr R sk)))) q psi
         | None => psi end
     | CN name args q => aapp1 (m2f_of (spec_noise1_m name (window b (knrec R sk) (knsil R sk) (knerr R sk)))) q psi
+    | CF name r q =>
+        match assoc name fb_fns with
+        | Some (P, _) => if bit (brec b) r then aapp1 (m2f_of (pauli_m P)) q psi else psi
+        | None => psi end
     end.
   Fixpoint cspec (b : bits) (sk : kst) (c : list cinstr) (psi : state) : state :=
     match c with
@@ -156,12 +164,13 @@ Section KCirc.
   Qed.
   Lemma spec_instr_scale b sk i c psi : spec_instr b sk i (scale c psi) = scale c (spec_instr b sk i psi).
   Proof.
-    destruct i as [x | name inv q | name q | name p inv q | name args q]; cbn [spec_instr].
+    destruct i as [x | name inv q | name q | name p inv q | name args q | name r q]; cbn [spec_instr].
     - apply gapp_doc_scale.
     - destruct (assoc name meas_fns) as [[[basis is_reset] g]|]; [apply (scale_app1 R rO rI radd rmul rsub ropp Rth) | reflexivity].
     - destruct (assoc name reset_fns) as [[basis g]|]; [apply (scale_app1 R rO rI radd rmul rsub ropp Rth) | reflexivity].
     - destruct (assoc name meas_fns) as [[[basis is_reset] g]|]; [apply (scale_app1 R rO rI radd rmul rsub ropp Rth) | reflexivity].
     - apply (scale_app1 R rO rI radd rmul rsub ropp Rth).
+    - destruct (assoc name fb_fns) as [[P g]|]; [|reflexivity]. destruct (bit (brec b) r); [apply (scale_app1 R rO rI radd rmul rsub ropp Rth) | reflexivity].
   Qed.
   Lemma cspec_scale b c0 : forall sk c psi, cspec b sk c0 (scale c psi) = scale c (cspec b sk c0 psi).
   Proof.
@@ -170,10 +179,10 @@ Section KCirc.
   Qed.
 
   (* ---- one instruction, in any context ---- *)
-  Theorem instr_sound i o : cinstr_ops i = Some o -> forall sk : kst,
+  Theorem instr_sound i o : cinstr_ops i = Some o -> forall sk : kst, kinv R sk -> cinstr_ok sk i = true ->
     exists C, sq2 C /\ forall b t, skel_eq t sk -> exists e : Qc, kfinal (krun b o t) = scale (E e * C) (spec_instr b sk i (kfinal t)).
   Proof.
-    destruct i as [x | name inv q | name q | name p inv q | name args q]; cbn [cinstr_ops spec_instr]; intros Ho sk.
+    destruct i as [x | name inv q | name q | name p inv q | name args q | name r q]; cbn [cinstr_ops spec_instr cinstr_ok]; intros Ho sk Hkinv Hok.
     - (* gate *)
       destruct (gate_in_context R rO rI radd rmul rsub ropp Rth E E_add E_0 E_1 half half_2 ta tb tc x o Ho) as (e & He).
       exists (uM sk o). split; [apply sq2_uM|]. intros b t Hs. exists (xv e). rewrite (He b t).
@@ -240,18 +249,27 @@ Section KCirc.
       exists (ev (psqrt2pow k)). split; [constructor|]. intros b t Hs. pose proof Hs as Hs'. destruct Hs' as (Kex & Kcol & Knr & Kns & Kne & _).
       destruct (Hk b t q ltac:(rewrite Kex; reflexivity) ltac:(rewrite Kcol; reflexivity)) as ((e & _ & He) & _).
       exists (xv e). rewrite (krun_same R rO rI radd rmul ropp E half ta tb tc b _ _ Hsm t), Hn, He, Knr, Kns, Kne. reflexivity.
+    - (* feedback *)
+      destruct (assoc name fb_fns) as [[P g]|] eqn:Ha; [|discriminate]. injection Ho as <-. apply Nat.ltb_lt in Hok.
+      apply (fb_anywhere R rO rI radd rmul rsub ropp Rth E E_add E_0 E_1 half half_2 ta tb tc name P g (assoc_in _ _ _ Ha) r q sk Hkinv Hok).
   Qed.
 
   (* ---- THE composition theorem on amplitude functions ---- *)
-  Theorem circuit_kraus c : forall ops, ccircuit_ops c = Some ops -> forall sk : kst,
+  Fixpoint ccircuit_ok (sk : kst) (c : list cinstr) : bool :=
+    match c with
+    | [] => true
+    | i :: r => cinstr_ok sk i && match cinstr_ops i with Some o => ccircuit_ok (krun KrausGates.b00 o sk) r | None => false end
+    end.
+  Theorem circuit_kraus c : forall ops, ccircuit_ops c = Some ops -> forall sk : kst, kinv R sk -> ccircuit_ok sk c = true ->
     exists C, sq2 C /\ forall b t, skel_eq t sk -> exists e : Qc, kfinal (krun b ops t) = scale (E e * C) (cspec b sk c (kfinal t)).
   Proof.
-    induction c as [|i r IH]; intros ops Hops sk; cbn [ccircuit_ops] in Hops.
+    induction c as [|i r IH]; intros ops Hops sk Hinv Hok; cbn [ccircuit_ops ccircuit_ok] in Hops, Hok.
     - injection Hops as <-. exists rI. split; [constructor|]. intros b t _. exists 0%Qc. cbn [cspec]. unfold KrausSem.krun. cbn [fold_left].
       rewrite E_0. unfold KrausSem.kfinal. rewrite (scale_scale R rO rI radd rmul rsub ropp Rth). f_equal. ring.
     - destruct (cinstr_ops i) as [o|] eqn:Hi; [|discriminate]. destruct (ccircuit_ops r) as [o'|] eqn:Hr; [|discriminate]. injection Hops as <-.
-      destruct (instr_sound i o Hi sk) as (C1 & HC1 & H1).
-      destruct (IH o' eq_refl (krun KrausGates.b00 o sk)) as (C2 & HC2 & H2).
+      apply andb_true_iff in Hok. destruct Hok as [Hok1 Hok2].
+      destruct (instr_sound i o Hi sk Hinv Hok1) as (C1 & HC1 & H1).
+      destruct (IH o' eq_refl (krun KrausGates.b00 o sk) (kinv_run R rO rI radd rmul ropp E half ta tb tc KrausGates.b00 o sk Hinv) Hok2) as (C2 & HC2 & H2).
       exists (C1 * C2). split; [apply sq2_mul; assumption|]. intros b t Hs.
       destruct (H1 b t Hs) as (e1 & He1).
       assert (Hs' : skel_eq (krun b o t) (krun KrausGates.b00 o sk)) by (apply (skel_run R rO rI radd rmul ropp E half ta tb tc); exact Hs).
@@ -288,11 +306,11 @@ Section KCirc.
     match i with
     | CG (GA1 _ a) => Nat.ltb a n
     | CG (GA2 _ a c) => Nat.ltb a n && Nat.ltb c n
-    | CM _ _ q | CR _ q | CMp _ _ _ q | CN _ _ q => Nat.ltb q n
+    | CM _ _ q | CR _ q | CMp _ _ _ q | CN _ _ q | CF _ _ q => Nat.ltb q n
     end.
   Lemma cinstr_wf n i o : cinstr_ops i = Some o -> cinstr_lanes_ok n i = true -> forallb (wf_op n) o = true.
   Proof.
-    destruct i as [[name a | name a c] | name inv q | name q | name p inv q | name args q]; cbn [cinstr_ops cinstr_lanes_ok gapp_ops]; intros Ho Hl.
+    destruct i as [[name a | name a c] | name inv q | name q | name p inv q | name args q | name r q]; cbn [cinstr_ops cinstr_lanes_ok gapp_ops]; intros Ho Hl.
     - apply Nat.ltb_lt in Hl.
       destruct (assoc name gate_table) as [[fn [|[|ar]]]|] eqn:Ha; try discriminate.
       destruct (doc_of name) as [[[|[|n']] D]|] eqn:Hd; try discriminate.
@@ -342,6 +360,8 @@ Section KCirc.
       pose proof noise1_static_ok as Hst. rewrite forallb_forall in Hst. specialize (Hst _ Hin). unfold noise1_static in Hst. cbn [snd] in Hst.
       apply andb_true_iff in Hst. destruct Hst as [Hone _].
       apply (forallb_map_imp (one_lane_op 8) (wf_op n)); [intros x Hx; apply (one_lane_wf_at n q 8 Hl x Hx) | exact Hone].
+    - apply Nat.ltb_lt in Hl. destruct (assoc name fb_fns) as [[P g]|] eqn:Ha; [|discriminate]. injection Ho as <-.
+      pose proof fb_wf as Hw. rewrite Forall_forall in Hw. apply (Hw _ (assoc_in _ _ _ Ha) r q n Hl).
   Qed.
   Lemma ccircuit_wf n c : forall ops, ccircuit_ops c = Some ops -> forallb (cinstr_lanes_ok n) c = true -> forallb (wf_op n) ops = true.
   Proof.
@@ -374,11 +394,13 @@ Section KCirc.
   Qed.
 
   (* ---- THE theorem, about the executable dense model ---- *)
-  Theorem circuit_kraus_dense n c ops : ccircuit_ops c = Some ops -> forallb (cinstr_lanes_ok n) c = true ->
+  Lemma kinv_init n : kinv R (kinit n).
+  Proof. split; [reflexivity | constructor]. Qed.
+  Theorem circuit_kraus_dense n c ops : ccircuit_ops c = Some ops -> forallb (cinstr_lanes_ok n) c = true -> ccircuit_ok (kinit n) c = true ->
     exists C, sq2 C /\ forall b, exists e : Qc,
       st_of n (final_vec (run n b ops (init_state n))) = scale (E e * C) (cspec b (kinit n) c (kpsi R (kinit n))).
   Proof.
-    intros Hops Hl. destruct (circuit_kraus c ops Hops (kinit n)) as (C & HC & H).
+    intros Hops Hl Hok. destruct (circuit_kraus c ops Hops (kinit n) (kinv_init n) Hok) as (C & HC & H).
     exists C. split; [exact HC|]. intro b. destruct (H b (kinit n) (skel_refl R (kinit n))) as (e & He).
     exists e. rewrite (dense_is_kraus n b ops (ccircuit_wf n c ops Hops Hl)), He.
     f_equal. unfold KrausSem.kfinal. cbn [kk kinit]. rewrite (scale_one R rO rI radd rmul rsub ropp Rth). reflexivity.
